@@ -695,6 +695,17 @@ with SqlImpl.impl_store.impl_manager as impl:
     def _pos(x):
         return x
 
+    @impl(ops.neg)
+    def _neg(x):
+        # A negative literal is rendered inline, so `-x` would become `--1`, which
+        # starts a SQL comment.
+        inner = x
+        while isinstance(inner, sqa.Label):
+            inner = inner.element
+        if isinstance(inner, sqa.BindParameter | sqa.sql.elements.UnaryExpression):
+            return -sqa.sql.elements.Grouping(inner)
+        return -x
+
     @impl(ops.abs)
     def _abs(x):
         return sqa.func.ABS(x, type_=x.type)
